@@ -25,9 +25,9 @@ def run(chk, prog):
     extras = ("call", ("attr", SELF, "filter"), (("un", "~", sel),), ())
     got = {}
     for conds, ret in r.returns:
-        got["extras" if any(is_t(t, "un") and t[1] == "not" and is_mcall(t[2], "static_is_empty") and p for t, p in conds) else "none"] = ret
+        got["extras" if any(is_mcall(t, "static_is_empty") and not p for t, p in conds) else "none"] = ret
     chk.require(got.get("extras") == extras, "POLARITY", "ChoiceMap.invalid_subset/extras", "the part of the map OUTSIDE the model's shape", derived=show(got.get("extras"))[:200], expected="self.filter(~_shape_selection(gen_fn.get_zero_trace(*args).get_choices()))", where=where)
-    okn = is_t(r.ret, "phi") and r.ret[2] == extras and r.ret[3] == C(None) and r.ret[1] == ("un", "not", ("call", ("attr", extras, "static_is_empty"), (), ()))
+    okn = is_t(r.ret, "phi") and r.ret[3] == extras and r.ret[2] == C(None) and r.ret[1] == ("call", ("attr", extras, "static_is_empty"), (), ())
     chk.require(okn, "POLARITY", "ChoiceMap.invalid_subset/none", "None iff nothing is left over", derived=show(r.ret)[:200], expected="extras if not extras.static_is_empty() else None", where=where)
     m, ss = prog.func("_shape_selection", CM)
     loop = prog.nested(ss, "loop")
